@@ -154,7 +154,8 @@ def pair_model_span(ctx, rng):
     cells = [("tri2_P1", (3, 1, 1), (2, 3), True), ("p4_general", (1, 1, 1), (2, 3), True), ("hcp", (3, 3, 1), (2, 3), True),
              ("bcc_conv", (3, 3, 2), (3,), False), ("sc1", (4, 4, 4), (2,), False)]
     if not ctx.quick:
-        cells += [("sc1", (6, 6, 6), (2,), False), ("fcc_conv", (2, 2, 2), (2, 3), False), ("wurtzite", (3, 3, 1), (2, 3), True), ("nacl_prim", (3, 3, 2), (3,), True),
+        cells += [("tri2_P1", (6, 6, 4), (2,), False),        # 288 atoms: beyond 16-bit pair indices (N^2 > 65535)
+                  ("sc1", (6, 6, 6), (2,), False), ("fcc_conv", (2, 2, 2), (2, 3), False), ("wurtzite", (3, 3, 1), (2, 3), True), ("nacl_prim", (3, 3, 2), (3,), True),
                   ("mono_P", (3, 2, 2), (2, 3), True), ("bcc_conv", (3, 3, 2), (2, 3), True)]
     for cname, diag, orders, shuffle in cells:
         sc = make_supercell(base_cells()[cname], diag, rng=rng, shuffle=shuffle)
